@@ -228,8 +228,15 @@ def confirm(ck, binp, recs, bad, badb, rounds=2):
             return bad, badb  # a blocked layer is not a timing artefact
         inp = os.path.join(ck.work, "confirm_in.jsonl")
         with open(inp, "w") as f:
+            whole = set()
             for r, _ in bad:
-                f.write(json.dumps(r) + "\n")
+                if str(r.get("bkind", "")).startswith("held"):
+                    whole.add(r["batch"])  # a forced schedule involves the whole batch (the calls that set the stage)
+                else:
+                    f.write(json.dumps(r) + "\n")
+            for r in recs:
+                if r["k"] == "call" and r["batch"] in whole:
+                    f.write(json.dumps(r) + "\n")
             for b in badb:
                 for r in recs:
                     if r["k"] == "call" and r["batch"] == b["batch"]:
@@ -314,7 +321,13 @@ def replay(ck, path):
     if not binp:
         return ck.finish(LEVEL)
     inp = os.path.join(ck.work, "replay_in.jsonl")
-    if case.get("k") == "call":
+    only = ["-det", "0", "-rounds", "0", "-race", "0", "-deadline", "0", "-cancelrace", "0", "-large=false", "-shutdown=false", "-held", "0"]
+    if case.get("k") == "call" and str(case.get("bkind", "")).startswith("held"):
+        # a forced schedule needs the whole batch (the calls that set the stage): re-run the held-lock batches
+        recs = ck.run_harness(binp, only[:-1] + ["3"], out_name="replay.jsonl")
+    elif case.get("k") == "shutdown":
+        recs = ck.run_harness(binp, [a for a in only if a != "-shutdown=false"], out_name="replay.jsonl")
+    elif case.get("k") == "call":
         open(inp, "w").write(json.dumps(case) + "\n")
         recs = ck.run_harness(binp, ["-in", inp], out_name="replay.jsonl")
     else:
@@ -325,5 +338,8 @@ def replay(ck, path):
     if recs is not None:
         bad, badb = evaluate(ck, recs, tag="replay")
         report(ck, bad, badb)
-        print("replayed %d record(s): %d call(s) off, %d batch(es) off" % (len(recs), len(bad), len(badb)))
+        sbad = evaluate_shutdown(ck, recs, tag="replay_shutdown")
+        report_shutdown(ck, sbad)
+        print("replayed %d record(s): %d call(s) off, %d batch(es) off, %d shutdown scenario(s) off" % (
+            len(recs), len(bad), len(badb), len(sbad)))
     return ck.finish(LEVEL)
